@@ -32,7 +32,8 @@ THOROUGH = [
     _ast("ast-full-n4-len3", "full", 4, "full", 3, extra=["--xopts", "X,XFH"]),
     _ast("ast-full-n3-len5", "full", 3, "full", 5, count_from=99, extra=["--xopts", "X,XFH", "--popts", "-,FH"]),
     _ast("ast-small4-n5-len3", "small4", 5, "abc", 3, count_from=5, extra=["--xopts", "X,XFH", "--case-timeout", 300]),
-    _ast("ast-tiny-n6-len4", "tiny", 6, "abc", 4, count_from=6, quants="mini", groups=0, extra=["--xopts", "X,XFH", "--case-timeout", 300]),
+    _ast("ast-tiny-n5-len4", "tiny", 5, "abc", 4, count_from=99, quants="mini", groups=0, extra=["--case-timeout", 300]),
+    _ast("ast-tiny-star-n6-len4", "tiny", 6, "abc", 4, count_from=6, quants="star", groups=0, extra=["--xopts", "X,XFH", "--case-timeout", 300]),
     dict(name="flags-ismx-n4-len3", driver=D, args=["--space", "flags", "--nodes", 4, "--strlen", 3, "--fh", "-,FH"]),
     dict(name="history-n3", driver=D, args=["--space", "history", "--nodes", 3]),
     dict(name="tokrep-n4-len3", driver=D, args=["--space", "tokrep", "--nodes", 4, "--strlen", 3]),
@@ -71,11 +72,11 @@ SPEC = dict(
     level="exploration",
     rule="Case = one regular-expression AST (or one catalogue entry). ASTs: EVERY tree with <= N nodes over the stated atom set "
          "(full: a b . [ab] [^a] [a-c-[b]] \\d \\w \\s \\i \\c \\p{Lu} \\P{Lu} \\p{IsBasicLatin} \\. U+10000 <empty>; small: a b . [ab] <empty> (small4: without <empty>); tiny: a b .) and operators "
-         "concat, |, group, ? * + {0} {1} {2} {1,} {0,2} {2,3} (mini: ? * + {2,3}), rendered to concrete syntax. Each AST is compiled in XML-Schema mode "
+         "concat, |, group, ? * + {0} {1} {2} {1,} {0,2} {2,3} (mini: ? * + {2,3}; star: ? * +), rendered to concrete syntax. Each AST is compiled in XML-Schema mode "
          "(options X,XF,XH,XFH; anchored) and in the XPath flavour (options '',F,H,FH; search) and run on EVERY string of length <= L over "
          "{a,b,c,B,1,space,U+10000} (abc: {a,b,c}); verdicts are compared with a Brzozowski-derivative matcher over the AST (itself cross-checked on every "
          "string against a position-set evaluator) and across the option sets. quick: full N<=3 x L<=4 (2465 ASTs x 2801 strings), small N<=4, tiny N<=5 x abc L<=4; "
-         "thorough: full N<=4 x L<=3, full N<=3 x L<=5, small4 N<=5, tiny N<=6. flags: every AST <= N (3/4) nodes over {a,b,B,.,[ab],[^a],^,$} x every subset of "
+         "thorough: full N<=4 x L<=3, full N<=3 x L<=5, small4 N<=5, tiny/mini N<=5, tiny/star N<=6. flags: every AST <= N (3/4) nodes over {a,b,B,.,[ab],[^a],^,$} x every subset of "
          "{i,s,m,x} x {'',F,H,FH} x every string <= 3 over {a,A,b,\\n}: verdict and Match group-0 positions. history: every AST <= N (2/3) nodes, one compiled "
          "object and one Match object reused over all 900 ordered pairs of a fixed 30-string set, compared with fresh objects. tokrep: every AST <= N (3/4) nodes x "
          "strings <= 4 over {a,b,c,U+10000}: tokenize/replace/Match positions vs reference leftmost matches. malformed: 196-entry catalogue (malformed => "
